@@ -45,7 +45,7 @@ from hl7apy.exceptions import ChildNotFound, ChildNotValid, \
     MaxChildLimitReached, OperationNotAllowed, \
     InvalidName, MessageProfileNotFound, LegacyMessageProfile
 from hl7apy.factories import datatype_factory
-from hl7apy.base_datatypes import BaseDataType
+from hl7apy.base_datatypes import BaseDataType, TextualDataType
 from hl7apy.consts import MLLP_ENCODING_CHARS
 from hl7apy.utils import iteritems
 
@@ -1317,6 +1317,14 @@ class SubComponent(CanBeVaries):
                 self._value = datatype_factory(self.datatype, value, self.version,
                                                self.validation_level)
             elif not value or isinstance(value, BaseDataType):
+                if isinstance(value, TextualDataType):
+                    # the textual classes differ from version to version (from v2.7 they know the truncation
+                    # character): an object of another version's class is rebuilt with the class of this one
+                    version_class = load_library(self.version).get_base_datatypes().get(value.classname)
+                    if version_class is not None and type(value) is not version_class and \
+                            issubclass(version_class, TextualDataType):
+                        value = version_class(value.value, highlights=value.highlights,
+                                              validation_level=value.validation_level)
                 if isinstance(value, BaseDataType) and Validator.is_strict(self.validation_level) and \
                         value.value not in (None, ''):
                     # the object may come from anywhere (another validation level, another datatype): under STRICT
